@@ -2,12 +2,17 @@
 
 package capacity
 
+import "massnet.org/mass/poc/engine"
+
 // VsH_ConfigureByBitLength: indexed spaces as in the by-size harness; the request asks for c24 spaces of bit length 24 and
 // c26 of bit length 26 (0..3 each, arbitrary). The configured set holds exactly the requested number of each bit length,
 // indexed spaces are used before new ones are created, nothing of another bit length is taken, creation happens only
 // when allowed, and a rejected request creates nothing.
 func VsH_ConfigureByBitLength() {
 	sk, all := vsSetup()
+	for s := engine.FirstState; s <= allState; s++ { // ConfigureByBitLength touches the ready index (result unused)
+		sk.workSpaceIndex = append(sk.workSpaceIndex, NewWorkSpaceMap())
+	}
 	c24, c26 := int(vsNondetU8("count24")), int(vsNondetU8("count26"))
 	vsAssume(c24 <= 3 && c26 <= 3)
 	req := map[int]int{24: c24, 26: c26}
